@@ -143,7 +143,7 @@ def _replace_child(root: ast.AST, old: ast.AST, new: ast.AST) -> None:
                         return
 
 
-def plan(per_function: int, seed: int = 0) -> list:
+def plan(per_function: int, seed: int = 0, skip=()) -> list:
     rng = random.Random(seed)
     repo = pathlib.Path('/repo')
     mutants = []
@@ -172,6 +172,8 @@ def plan(per_function: int, seed: int = 0) -> list:
         all_props = sorted({p for f2, q2, _l, ps in modelmap.MAP if (f2, q2) == (file, qual) for p in ps})
         for s in chosen:
             mid = hashlib.sha1(f'{file}:{qual}:{s.op}:{s.node_index}'.encode()).hexdigest()[:10]
+            if mid in skip:
+                continue
             mutants.append({'id': mid, 'file': file, 'function': qual, 'op': s.op, 'node_index': s.node_index,
                             'detail': s.detail, 'properties': all_props})
     return mutants
@@ -226,7 +228,12 @@ def setup_worker(k: int) -> pathlib.Path:
         w.mkdir(parents=True, exist_ok=True)
         _sh(['git', '-C', '/repo', 'worktree', 'add', '--detach', str(w / 'repo')])
     if not (w / 'verif').exists():
-        _sh(['rsync', '-a', '--exclude', '.git', '--exclude', 'seeded', '--exclude', 'evidence', str(VERIF) + '/', str(w / 'verif')])
+        # the committed state of /verif (work in progress in the working tree stays out), plus the Lean build
+        # directory so that nothing has to be compiled twice
+        (w / 'verif').mkdir(parents=True)
+        subprocess.run(f'git -C {VERIF} archive HEAD -- harness lean check known_findings.json properties.jsonl '
+                       f'| tar -x -C {w / "verif"}', shell=True, check=True)
+        _sh(['rsync', '-a', str(VERIF / 'lean' / '.lake'), str(w / 'verif' / 'lean') + '/'])
         (w / 'verif' / 'evidence' / 'replays').mkdir(parents=True, exist_ok=True)
     return w
 
@@ -331,7 +338,10 @@ if __name__ == '__main__':
     def opt(name, default=None):
         return args[args.index(name) + 1] if name in args else default
     if cmd == 'plan':
-        ms = plan(int(opt('--per-function', '4')), int(opt('--seed', '0')))
+        skip = set()
+        if opt('--skip-results'):
+            skip = {json.loads(l)['id'] for l in pathlib.Path(opt('--skip-results')).read_text().splitlines() if l.strip()}
+        ms = plan(int(opt('--per-function', '4')), int(opt('--seed', '0')), skip)
         out = opt('--out', '/tmp/mut/plan.json')
         pathlib.Path(out).parent.mkdir(parents=True, exist_ok=True)
         pathlib.Path(out).write_text(json.dumps(ms, indent=0))
